@@ -92,9 +92,23 @@ pub struct MonState {
     fault_pending: Vec<Option<u8>>,
     pub hits: Vec<FaultHit>,
     pub perturb: Option<Perturb>,
+    /// Bounded-progress guard: once `seq` reaches this value every call fails and
+    /// `over_budget` is set (0 = unlimited).
+    pub seq_limit: u64,
+    pub over_budget: bool,
 }
 
 impl MonState {
+    fn budget_exceeded(&mut self) -> bool {
+        if self.seq_limit != 0 && self.seq >= self.seq_limit {
+            self.over_budget = true;
+            self.seq += 1;
+            true
+        } else {
+            false
+        }
+    }
+
     fn check_fault(&mut self, kind: u8) -> Option<(ErrorKind, bool)> {
         // returns Some((err, fail_now)) ; fail_now=false => short grant this time
         for i in 0..self.faults.len() {
@@ -183,6 +197,15 @@ impl Shared {
     pub fn hits(&self) -> Vec<FaultHit> {
         self.lock().hits.clone()
     }
+    /// Allows `n` more underlying calls (bounded-progress restatement of "never loops").
+    pub fn set_step_budget(&self, n: u64) {
+        let mut g = self.lock();
+        g.seq_limit = if n == 0 { 0 } else { g.seq + n };
+        g.over_budget = false;
+    }
+    pub fn over_budget(&self) -> bool {
+        self.lock().over_budget
+    }
     pub fn set_perturb(&self, p: Option<Perturb>) {
         self.lock().perturb = p;
     }
@@ -207,6 +230,8 @@ impl MonFile {
             fault_pending: Vec::new(),
             hits: Vec::new(),
             perturb: None,
+            seq_limit: 0,
+            over_budget: false,
         })));
         (MonFile { st: st.clone(), pos: 0 }, st)
     }
@@ -215,6 +240,9 @@ impl MonFile {
 impl Read for MonFile {
     fn read(&mut self, buf: &mut [u8]) -> io::Result<usize> {
         let mut g = self.st.lock();
+        if g.budget_exceeded() {
+            return Err(io::Error::new(ErrorKind::Other, "harness: I/O step budget exceeded"));
+        }
         g.c.reads += 1;
         let req = buf.len() as u64;
         let pos = self.pos;
@@ -242,7 +270,9 @@ impl Read for MonFile {
         }
         let len = g.data.len() as u64;
         let n = if pos >= len { 0 } else { limit.min((len - pos) as usize) };
-        buf[..n].copy_from_slice(&g.data[pos as usize..pos as usize + n]);
+        if n > 0 {
+            buf[..n].copy_from_slice(&g.data[pos as usize..pos as usize + n]);
+        }
         self.pos += n as u64;
         g.c.bytes_read += n as u64;
         g.record(K_READ, pos, req, Ok(n as u64));
@@ -253,6 +283,9 @@ impl Read for MonFile {
 impl Write for MonFile {
     fn write(&mut self, buf: &[u8]) -> io::Result<usize> {
         let mut g = self.st.lock();
+        if g.budget_exceeded() {
+            return Err(io::Error::new(ErrorKind::Other, "harness: I/O step budget exceeded"));
+        }
         g.c.writes += 1;
         let req = buf.len() as u64;
         let pos = self.pos;
@@ -308,6 +341,9 @@ impl Write for MonFile {
 impl Seek for MonFile {
     fn seek(&mut self, from: SeekFrom) -> io::Result<u64> {
         let mut g = self.st.lock();
+        if g.budget_exceeded() {
+            return Err(io::Error::new(ErrorKind::Other, "harness: I/O step budget exceeded"));
+        }
         g.c.seeks += 1;
         let pos = self.pos;
         if let Some((err, _)) = g.check_fault(K_SEEK) {
